@@ -236,3 +236,21 @@ def run(ctx):
         )
     if not assigns:
         raise AnalysisError("check_cache: no assignment of call_hash found", "RedunBackendDb.check_cache")
+
+    # ---- C20.10 the parent's child list has one entry per child call --------------------------------
+    # The parent's call hash and CallEdge rows are computed from job.child_jobs.  A duplicate child that is collapsed onto a running twin must
+    # leave an entry (the twin) in its slot, otherwise the parent's call node lists one child while two child jobs carry its id as parent.
+    r10 = ctx.rule("C20.10", "a collapsed duplicate keeps its slot in the parent's child list (filled by the twin)", floor=1)
+    colf = m.func("Job.collapse")
+    ccfg10 = CFG(colf)
+    twin = colf.args.args[1].arg
+    repl10 = [n for n in ccfg10.nodes if n.kind == "stmt" and isinstance(n.ast, ast.Assign) and isinstance(n.ast.targets[0], ast.Subscript) and src(n.ast.targets[0].value).endswith(".child_jobs") and src(n.ast.value) == twin]
+    removes10 = [n for n in ccfg10.nodes if n.kind == "stmt" and n.ast is not None and any(isinstance(c, ast.Call) and isinstance(c.func, ast.Attribute) and c.func.attr in ("remove", "pop") and src(c.func.value).endswith(".child_jobs") for c in ast.walk(n.ast))]
+    r10.check(
+        bool(repl10) and ccfg10.must_pass(ccfg10.entry, repl10) and not removes10,
+        f"{m.rel}:Job.collapse:child-slot",
+        "Job.collapse does not, on every path, put the twin into the collapsed job's slot of parent.child_jobs (or removes an entry): the parent's call hash and child edges then "
+        "count fewer children than jobs that ran under it (both job rows keep parent_id = parent)",
+        m.rel,
+        colf.lineno,
+    )
